@@ -55,7 +55,7 @@ def cases(tier, seed):
         yield {"k": "c0", "gen": 5, "subs": list(range(s0, s0 + 32)),
                "seed": rnd.randrange(1 << 30), "reps": 2 if tier == "quick" else 12}
     yield {"k": "stride", "seed": rnd.randrange(1 << 30), "n": 60 if tier == "quick" else 600}
-    n = 150 if tier == "quick" else 8000
+    n = 150 if tier == "quick" else 60000
     for i in range(n):
         yield {"k": "stream", "gen": rnd.choice((4, 5)), "seed": rnd.randrange(1 << 30),
                "how": rnd.choice(["flips", "flips", "trunc", "random", "othergen", "mix"])}
